@@ -120,6 +120,11 @@ func init() {
 	}
 
 	gens["C11"] = genC11
+	extractors["Consts"] = func(repo string) (string, error) {
+		var sb strings.Builder
+		leanBytes(&sb, "flvHeader", "httpflv.FlvHeader", httpflv.FlvHeader)
+		return sb.String(), nil
+	}
 }
 
 func genC11(g *G) {
